@@ -67,6 +67,14 @@ STORIES = {
         "+ [Take orders] -> Orders\n"
         "+ [Again] -> Count\n"
     ),
+    "game-objects": (
+        "from bardic.stdlib.relationship import Relationship\nfrom bardic.stdlib.inventory import Inventory\nfrom bardic.stdlib.economy import Wallet, Shop\n"
+        ":: Start\n~ alex = Relationship('Alex', 50, 50, 0)\n~ alex.mood = 'wary'\n~ bag = Inventory(9)\n~ w = Wallet(20)\n~ shop = Shop([{'name': 'Gem', 'weight': 1, 'value': 3}])\n"
+        "Camp.\n+ [talk] -> Talk\n+ [buy] -> Buy\n+ [look] -> Look\n\n"
+        ":: Talk\n~ alex.discuss_topic('topic' + str(len(alex.topics_discussed)))\n~ alex.add_trust(4)\nTalked: {sorted(alex.topics_discussed)} {alex.trust} {alex.has_discussed('topic0')}\n+ [talk] -> Talk\n+ [buy] -> Buy\n+ [look] -> Look\n\n"
+        ":: Buy\n~ ok = shop.buy('Gem', w, bag)\nBought {ok}: {len(bag.items)} {w.gold} {bag.current_weight}\n+ [talk] -> Talk\n+ [buy] -> Buy\n+ [look] -> Look\n\n"
+        ":: Look\n{alex.mood} {type(alex.topics_discussed).__name__} {w.can_afford(3)} {bag.has('Gem')}\n+ [talk] -> Talk\n+ [buy] -> Buy\n+ [look] -> Look\n"
+    ),
     "late-iterators": (
         ":: Start\n"
         "~ names = ['x', 'y', 'z']\n"
